@@ -157,3 +157,93 @@ def label_function(entries, tol=0):
         else:
             out.append([s, e, l])
     return out
+
+
+# ------------------------------------------------------------- set algebra
+
+
+def difference(A, B):
+    """A, B: [(s,e,l)] sorted, non-overlapping -> A's labelled time not covered by B."""
+    out = []
+    for s, e, l in A:
+        cur = s
+        for bs, be, _ in B:
+            if be <= cur or bs >= e:
+                continue
+            if bs > cur:
+                out.append((cur, bs, l))
+            cur = max(cur, be)
+            if cur >= e:
+                break
+        if cur < e:
+            out.append((cur, e, l))
+    return out
+
+
+def intersection(A, B, dem="-"):
+    out = []
+    for bs, be, bl in B:
+        for s, e, l in A:
+            lo, hi = max(s, bs), min(e, be)
+            if lo < hi:
+                out.append((lo, hi, f"{l}{dem}{bl}"))
+    out.sort(key=lambda x: (x[0], x[1]))
+    return out
+
+
+def union_components(A, B):
+    """Connected components of the positive-overlap relation between the
+    entries of A and B -> [(start, end, [members sorted by start])], members
+    are (start, end, label, side)."""
+    items = [(s, e, l, "A") for s, e, l in A] + [(s, e, l, "B") for s, e, l in B]
+    items.sort(key=lambda x: (x[0], x[1]))
+    comps = []
+    for it in items:
+        if comps and it[0] < comps[-1][1]:  # overlaps the running component
+            comps[-1][1] = max(comps[-1][1], it[1])
+            comps[-1][2].append(it)
+        else:
+            comps.append([it[0], it[1], [it]])
+    return comps
+
+
+def union_label_options(members, dem="-"):
+    """All labels allowed by 'joined in time order': members sorted by start;
+    members with equal start may appear in either order."""
+    groups = []
+    for m in sorted(members, key=lambda x: x[0]):
+        if groups and groups[-1][0][0] == m[0]:
+            groups[-1].append(m)
+        else:
+            groups.append([m])
+    import itertools
+
+    opts = [[]]
+    for g in groups:
+        new = []
+        for perm in itertools.permutations(g):
+            for o in opts:
+                new.append(o + [x[2] for x in perm])
+        opts = new
+    return {dem.join(o) for o in opts}
+
+
+def merge_labels(A, B, dem=","):
+    out = []
+    for s, e, l in A:
+        subs = [bl for bs, be, bl in B if be > s and bs < e]
+        if subs:
+            out.append((s, e, f"{l}({dem.join(subs)})"))
+    return out
+
+
+def covered_cells(entries, cuts):
+    """Set of elementary segments (cuts[i], cuts[i+1]) covered by entries."""
+    cov = set()
+    for i in range(len(cuts) - 1):
+        lo, hi = cuts[i], cuts[i + 1]
+        for s, e, *_ in entries:
+            if s <= lo and hi <= e:
+                cov.add(i)
+                break
+    return cov
